@@ -230,10 +230,24 @@ CHECKS["C05"] = dict(
          "from nested code, global in a nested function, javascript block scoping, wildcard / aliased re-export / repeated imports).",
     design_ref="5/C05", engine="Scope")
 
+CHECKS["C12"] = dict(
+    category="exploration",
+    technique="TLA+ specification of the edit operations (Edits.tla): the program is a sequence of line tokens, the edits are actions, the state carries where every original line is and what every entity is called, so the specification predicts the observables after any edit sequence; TLC enumerates all sequences up to a bound and checks the edit model's own invariants; every reached state is replayed on real source text through lian and compared with the prediction",
+    text="Edits: blank line, comment, no-op statement (before five representative lines), consistent renaming of a function or of a local together with exactly the "
+         "occurrences bound to it, swapping adjacent independent definitions, moving a definition into another file and importing it (twice: a two-hop re-export chain). "
+         "Observables predicted from the unedited run: taint flows by (file, source line, sink line), call edges by names, bindings by (use line, name, declaration line). "
+         "Seeds: a python program (wrapped source, helper, sink in a callee, a local named like an unresolved global read elsewhere) and its javascript counterpart; "
+         "multi-file states are analysed under two names of the main file.",
+    note="Level exploration: the relation between runs is replayed, TLC decides the edit model (NoLineLost, OrderKeptInsideDefs, FreshNames) and supplies the sequences and the "
+         "predictions. Sequences of <= 2 edits (quick: all single edits, all double moves, 100 sampled pairs) / <= 3 (thorough: all pairs, 1500 sampled triples).",
+    design_ref="5/C12", engine="Edits")
+
 NOT_YET = {
 }
 
 ENGINES = [
+    dict(name="Edits", path="specs/Edits.tla harness/c12.py harness/lianrun.py",
+         serves_properties=["C12"], kind_free_text="TLA+ model of meaning-preserving edits as exhaustive generator of edit sequences with predicted observables, replayed through lian"),
     dict(name="Scope", path="specs/Scope.tla specs/Imports.tla harness/c05.py harness/lianrun.py",
          serves_properties=["C05"], kind_free_text="declarative TLA+ scoping and import rules evaluated by TLC over exhaustively enumerated configurations, judged against lian's bindings"),
     dict(name="Scheduler", path="specs/Scheduler.tla specs/SchedulerTrace.tla harness/c13.py harness/schedtrace.py harness/schedgen.py harness/lianrun.py",
